@@ -321,11 +321,9 @@ def gen_distance_calls(rng, per_fn):
             c = pl.gen_pair(rng, fn) if k < per_fn else gen_axial_pair(rng, fn)
             if not pl.in_domain(c["A"], c["B"]):
                 c = pl.gen_pair(rng, fn)
-            args = []
-            for a in pl.case_args(c):
-                args.append(float(a) if isinstance(a, (int, float)) else A(a))
-            out.append(call("distance3d.distance", fn, args, L=pl.scale_L(c["A"], c["B"]), case=dict(fn=fn, A=c["A"], B=c["B"], stream=c["stream"]),
-                            rel=5e-3 if fn in ("line_to_circle", "line_segment_to_circle", "disk_to_disk") else 1e-6))
+            pc = dict(fn=fn, A=c["A"], B=c["B"], stream=c["stream"])
+            out.append(dict(k="worker", module="c10", fam="distance", case=dict(fn=fn, args=pl.case_args(c)), pcase=pc,
+                            L=pl.scale_L(c["A"], c["B"])))
     return out
 
 
@@ -447,7 +445,11 @@ def gen_foreign_calls(rng, tier, notes):
 # (intersection flag, plane, area, force, centre of pressure) are compared strictly.  Soft mismatches are counted.
 IGNORE_KEYS = {"ref"}
 SOFT_KEYS = {"pts", "ordered", "perm", "uniq", "hps", "poly3d", "poly",            # c15: stages of one tetrahedron pair
-             "details", "order1", "order2", "pairs_tree_ordered", "tris"}          # c16: argsort-tie dependent orders, per-contact stages
+             "details", "order1", "order2", "pairs_tree_ordered", "tris",          # c16: argsort-tie dependent orders, per-contact stages
+             # per-contact rows of hydroelastic bodies: a sliver contact (two tetrahedra touching along an edge, area ~1e-16)
+             # exists / has a centre of pressure only up to rounding; the aggregates (wrenches, force and area sums) are strict
+             "contacts", "forces", "coms", "n_contacts", "n", "reported_pairs", "all_pairs", "min_normal_ratio", "sw_poly", "sw_plane",
+             "n_narrow", "narrow_only_tree", "narrow_only_brute"}
 SOFT_HITS = []
 
 
@@ -553,6 +555,19 @@ def normalise(c, a, b):
             for k in ("u1", "u2"):
                 if k in j:
                     j[k] = sorted(j[k])
+            if "mid" in j:
+                mid = []
+                for rec in j["mid"]:
+                    rec = dict(rec)
+                    qs = []
+                    for q in rec.get("q", []):
+                        q = dict(q)
+                        trip = sorted(zip(q.get("ov", []), q.get("boxes", []), q.get("ext", [])), key=lambda x_: x_[0])
+                        q["ov"], q["boxes"], q["ext"] = [x_[0] for x_ in trip], [x_[1] for x_ in trip], [x_[2] for x_ in trip]
+                        qs.append(q)
+                    rec["q"] = qs
+                    mid.append(rec)
+                j["mid"] = mid
             if tie:
                 for k in LAYOUT_KEYS:
                     j.pop(k, None)
@@ -577,6 +592,54 @@ def normalise(c, a, b):
         jb["contacts"] = {k: cb[k] for k in common}
         return {"ok": {"json": ja}}, {"ok": {"json": jb}}, note
     return a, b, None
+
+
+def compare_distance(c, ja, jb, T):
+    """distance3d.distance through harness/impl/c10.py: exception types identical; inputs in a recorded C10 / C11 finding
+    class (same predicates, evaluated on either mode's run) are skipped and counted; d within the tolerance of C10/C11;
+    closest points equal, or -- where the optimum is not unique (parallel / axial / coplanar placements) -- each mode's
+    points must be a valid C10 answer (on their primitives within 1e-9 L, |p1-p2| = d within 1e-6 L; exact fractions oracle)"""
+    from . import c10, c11
+    pc = c["pcase"]
+    fn = pc["fn"]
+    ea, eb = ja.get("exc"), jb.get("exc")
+    kid = None
+    for r in (ja, jb):
+        if "exc" not in r:
+            kid = kid or c11.known_id(pc, r) or c10.known_id(pc, r)
+    if kid is None and (ea or eb):
+        kid = c11.known_id(pc, {}) or c10.known_id(pc, {})
+    if kid:
+        T.hit(f"distance_skip_known_{kid}")
+        return None
+    if ea or eb:
+        if ea != eb:
+            return f"distance.{fn}: raised {ea} compiled vs {eb} interpreted ({(ja.get('exc_msg') or jb.get('exc_msg') or '')[:100]})"
+        T.hit("distance_same_exception")
+        return None
+    if ja.get("n_out") != jb.get("n_out") or ja.get("shapes") != jb.get("shapes") or ja.get("mutated") != jb.get("mutated"):
+        return f"distance.{fn}: result structure {ja.get('n_out')}/{ja.get('shapes')}/mutated={ja.get('mutated')} compiled vs " \
+               f"{jb.get('n_out')}/{jb.get('shapes')}/mutated={jb.get('mutated')} interpreted"
+    da, pa = c10.decode(ja)
+    db, pb = c10.decode(jb)
+    L = float(c["L"])
+    kd = 5e-3 if fn in c11.BISECTION else 1e-6
+    if not (da == db or abs(da - db) <= kd * L):
+        return f"distance.{fn}: d = {da!r} compiled vs {db!r} interpreted (tolerance {kd:g} L = {kd * L:.3g}; stream {pc['stream']})"
+    T.hit("distance_d_compared")
+    e = max((abs(x - y) for u, v in zip(pa, pb) for x, y in zip(u, v)), default=0.0)
+    if e <= 1e-9 * L + 1e-12:
+        T.hit("distance_points_equal")
+        return None
+    bad = []
+    for mode, r in (("compiled", ja), ("interpreted", jb)):
+        f, _ = c10.judge_py(pc, r)
+        if f:
+            bad.append(f"{mode}: {f[0][:140]}")
+    if bad:
+        return f"distance.{fn}: the closest points differ between the modes and are not both valid answers: " + "; ".join(bad)
+    T.hit("distance_points_differ_both_valid")
+    return None
 
 
 def tiny_vector(c):
@@ -675,7 +738,11 @@ def compare_collider(c, rj, ri, T):
                 elif key == "p":
                     e = max((abs(u - v) for u, v in zip(x, y)), default=0.0)
                     if e > tol:
-                        fails.append(f"{fn}.{key}: {x} compiled vs {y} interpreted")
+                        dvec = np.array(o.get("d", [0.0, 0.0, 0.0]), dtype=float)
+                        if fn == "support" and abs(float(np.array(x) @ dvec) - float(np.array(y) @ dvec)) <= tol * max(1.0, float(np.linalg.norm(dvec))):
+                            T.hit("support_points_differ_same_value")
+                        else:
+                            fails.append(f"{fn}.{key}: {x} compiled vs {y} interpreted")
     return fails
 
 
@@ -784,6 +851,9 @@ def run(tier, seed, replay=None):
         calls += gen_mesh_calls(R.rng, 12 if q else 100)
         calls += gen_tree_calls(R.rng, 10 if q else 80, tier)
         calls += gen_foreign_calls(R.rng, tier, notes)
+        if cm.os.environ.get("C20_FAMILIES"):            # development aid only
+            keep = set(cm.os.environ["C20_FAMILIES"].split(","))
+            calls = [c for c in calls if family(c) in keep or c["k"] in keep]
     R.notes += notes
     t0 = cm.time.time()
     rj, dead_j = run_list(calls, True, "jit", 900 if tier == "quick" else 3000)
@@ -822,6 +892,10 @@ def run(tier, seed, replay=None):
                 what = f"collider {c['c1']['kind']}/{c['c2']['kind']}: " + "; ".join(fs[:3])
             fam_cmp[fam] = fam_cmp.get(fam, 0) + 1
             distinct.add(cm.canon_hash([c["c1"], c["c2"]]))
+        elif c["k"] == "worker" and c.get("module") == "c10":
+            what = compare_distance(c, a["ok"]["json"], b["ok"]["json"], T)
+            fam_cmp[fam] = fam_cmp.get(fam, 0) + 1
+            distinct.add(cm.canon_hash(c["pcase"]))
         elif c["k"] in ("worker", "aabbtree") and any(k in a["ok"].get("json", {}) or k in b["ok"].get("json", {})
                                                        for k in ("exc", "harness_exc")):
             ja, jb = a["ok"]["json"], b["ok"]["json"]
@@ -838,6 +912,24 @@ def run(tier, seed, replay=None):
             if nnote:
                 T.hit(nnote)
             cmp(a["ok"], b["ok"], rel * L + 1e-12 * L, rel, "", diffs, discrete)
+            if diffs and c["k"] == "call" and c["fn"].startswith("support_function_"):
+                # two different but equally extreme points (a tie decided by a 1-ulp difference of the local direction)
+                # are the same answer: compare the support VALUES p.d
+                dvec = np.array(c["args"][0]["a"], dtype=float)
+                pa_, pb_ = np.array(unser(a["ok"]), dtype=float), np.array(unser(b["ok"]), dtype=float)
+                if abs(float(pa_ @ dvec) - float(pb_ @ dvec)) <= 1e-9 * L * max(1.0, float(np.linalg.norm(dvec))):
+                    T.hit("support_points_differ_same_value")
+                    diffs = []
+            if c["k"] == "mesh" and (diffs or discrete):
+                # same for the hill-climbing mesh: another vertex with the same projection is the same answer
+                ok_all = True
+                for dd, ra, rb in zip(c["dirs"], unser(a["ok"]), unser(b["ok"])):
+                    dvec = np.array(dd, dtype=float)
+                    if abs(float(np.array(ra[1]) @ dvec) - float(np.array(rb[1]) @ dvec)) > 1e-9 * L * max(1.0, float(np.linalg.norm(dvec))):
+                        ok_all = False
+                if ok_all:
+                    T.hit("mesh_vertices_differ_same_value")
+                    diffs, discrete = [], []
             if a.get("mutated") != b.get("mutated"):
                 discrete.append(("mutated", a.get("mutated"), b.get("mutated")))
             fam_cmp[fam] = fam_cmp.get(fam, 0) + 1
